@@ -575,10 +575,7 @@ func raceKey(blk string) string {
 		for _, ln := range lines[1:] {
 			ln = strings.TrimSpace(ln)
 			if strings.HasPrefix(ln, "github.com/couchbase/moss.") {
-				fn := ln
-				if i := strings.IndexByte(fn, '('); i > 0 {
-					fn = fn[:i]
-				}
+				fn := strings.TrimSuffix(ln, "()")
 				fr = append(fr, strings.TrimPrefix(fn, "github.com/couchbase/moss."))
 				break
 			}
